@@ -13,6 +13,7 @@ pub const KS: &str = "ks";
 pub const LABEL_A: NodeLabel = 1;
 pub const LABEL_B: NodeLabel = 2;
 pub const LABEL_C: NodeLabel = 3;
+pub const LABEL_D: NodeLabel = 4; // initially absent; joins / leaves (a node replaced under a new host id = C leaves + D joins)
 pub const LABEL_X: NodeLabel = 9; // never known
 
 pub fn uuid_of(label: NodeLabel) -> Uuid {
@@ -43,7 +44,7 @@ pub enum Ev {
     LearnRaw { table: u8, first: i64, last: i64, r: u8 },
     /// metadata refresh: topology changes (C joins/leaves, A re-created with a new address,
     /// B re-created in another datacenter) and the fetched schema
-    Refresh { toggle_c: bool, recreate_a: bool, move_b: bool, schema: Schema },
+    Refresh { toggle_c: bool, toggle_d: bool, recreate_a: bool, move_b: bool, schema: Schema },
 }
 
 impl Ev {
@@ -51,14 +52,14 @@ impl Ev {
         match self {
             Ev::Learn { table, a, b, r } => serde_json::json!({"ev":"learn","table":table,"a":a,"b":b,"r":r}),
             Ev::LearnRaw { table, first, last, r } => serde_json::json!({"ev":"learn_raw","table":table,"first":first,"last":last,"r":r}),
-            Ev::Refresh { toggle_c, recreate_a, move_b, schema } => {
+            Ev::Refresh { toggle_c, toggle_d, recreate_a, move_b, schema } => {
                 let (s, i) = match schema {
                     Schema::AllPresent => ("all_present", 0),
                     Schema::Dropped(i) => ("dropped", *i),
                     Schema::NotTabletBased => ("not_tablet_based", 0),
                     Schema::KeyspaceGone => ("keyspace_gone", 0),
                 };
-                serde_json::json!({"ev":"refresh","toggle_c":toggle_c,"recreate_a":recreate_a,"move_b":move_b,"schema":s,"schema_table":i})
+                serde_json::json!({"ev":"refresh","toggle_c":toggle_c,"toggle_d":toggle_d,"recreate_a":recreate_a,"move_b":move_b,"schema":s,"schema_table":i})
             }
         }
     }
@@ -76,7 +77,7 @@ impl Ev {
                     "keyspace_gone" => Schema::KeyspaceGone,
                     _ => return None,
                 };
-                Some(Ev::Refresh { toggle_c: b("toggle_c"), recreate_a: b("recreate_a"), move_b: b("move_b"), schema })
+                Some(Ev::Refresh { toggle_c: b("toggle_c"), toggle_d: b("toggle_d"), recreate_a: b("recreate_a"), move_b: b("move_b"), schema })
             }
             _ => None,
         }
@@ -98,6 +99,8 @@ pub struct Cfg {
     pub combos: bool,
     /// allow B to move between datacenters
     pub move_b: bool,
+    /// node D (initially absent) may join / leave
+    pub toggle_d: bool,
     /// 1-in-k states (by canon hash) whose history is kept for the production-path audit
     pub audit_mod: u64,
     pub audit_cap: usize,
@@ -108,7 +111,7 @@ impl Cfg {
         serde_json::json!({
             "name": self.name, "universe": self.universe, "probes": self.probes,
             "tables": self.tables.iter().map(|(n, v)| serde_json::json!([n, v])).collect::<Vec<_>>(),
-            "rsets": self.rsets, "combos": self.combos, "move_b": self.move_b,
+            "rsets": self.rsets, "combos": self.combos, "move_b": self.move_b, "toggle_d": self.toggle_d,
         })
     }
     pub fn from_json(v: &serde_json::Value) -> Option<Cfg> {
@@ -122,6 +125,7 @@ impl Cfg {
             rsets: v["rsets"].as_array()?.iter().map(|r| r.as_array()?.iter().map(|p| Some((p[0].as_u64()? as NodeLabel, p[1].as_i64()? as i32))).collect::<Option<Vec<_>>>()).collect::<Option<_>>()?,
             combos: v["combos"].as_bool()?,
             move_b: v["move_b"].as_bool()?,
+            toggle_d: v["toggle_d"].as_bool().unwrap_or(false),
             audit_mod: 0,
             audit_cap: 0,
         })
@@ -133,6 +137,7 @@ pub const DCS: [&str; 4] = ["dc1", "dc2", "dc3", "nope"];
 #[derive(Clone, Copy, Debug, PartialEq, Eq)]
 pub struct Topo {
     pub c_present: bool,
+    pub d_present: bool,
     pub a_variant: bool,
     pub b_dc3: bool,
 }
@@ -144,12 +149,18 @@ impl Topo {
         if self.c_present {
             v.push(mk(LABEL_C, "10.0.0.3:9042", "dc1"));
         }
+        if self.d_present {
+            v.push(mk(LABEL_D, "10.0.0.4:9042", "dc2"));
+        }
         v
     }
     pub fn known(&self) -> BTreeSet<NodeLabel> {
         let mut s: BTreeSet<NodeLabel> = [LABEL_A, LABEL_B].into_iter().collect();
         if self.c_present {
             s.insert(LABEL_C);
+        }
+        if self.d_present {
+            s.insert(LABEL_D);
         }
         s
     }
@@ -239,7 +250,7 @@ impl TabModel {
     }
 
     pub fn fresh(&self) -> Obj {
-        let topo = Topo { c_present: true, a_variant: false, b_dc3: false };
+        let topo = Topo { c_present: true, d_present: false, a_variant: false, b_dc3: false };
         let world = World::new(&topo.nodes(), &keyspaces(&self.cfg, Schema::AllPresent));
         let mut reference = RefMap::new();
         reference.maintenance(&tablet_tables(&self.cfg, Schema::AllPresent), &BTreeSet::new(), &topo.known());
@@ -260,15 +271,18 @@ impl TabModel {
             }
         }
         for &schema in &self.cfg.schemas {
-            for bits in 0..8u8 {
-                let (toggle_c, recreate_a, move_b) = (bits & 1 != 0, bits & 2 != 0, bits & 4 != 0);
+            for bits in 0..16u8 {
+                let (toggle_c, recreate_a, move_b, toggle_d) = (bits & 1 != 0, bits & 2 != 0, bits & 4 != 0, bits & 8 != 0);
+                if toggle_d && !self.cfg.toggle_d {
+                    continue;
+                }
                 if move_b && !self.cfg.move_b {
                     continue;
                 }
                 if !self.cfg.combos && bits.count_ones() > 1 {
                     continue;
                 }
-                evs.push(Ev::Refresh { toggle_c, recreate_a, move_b, schema });
+                evs.push(Ev::Refresh { toggle_c, toggle_d, recreate_a, move_b, schema });
             }
         }
         evs
@@ -296,8 +310,8 @@ impl TabModel {
         Ok(())
     }
 
-    fn next_topo(topo: &Topo, toggle_c: bool, recreate_a: bool, move_b: bool) -> Topo {
-        Topo { c_present: topo.c_present ^ toggle_c, a_variant: topo.a_variant ^ recreate_a, b_dc3: topo.b_dc3 ^ move_b }
+    fn next_topo(topo: &Topo, toggle_c: bool, toggle_d: bool, recreate_a: bool, move_b: bool) -> Topo {
+        Topo { c_present: topo.c_present ^ toggle_c, d_present: topo.d_present ^ toggle_d, a_variant: topo.a_variant ^ recreate_a, b_dc3: topo.b_dc3 ^ move_b }
     }
 
     pub fn apply_ev(&self, o: &mut Obj, ev: &Ev) -> Result<(), String> {
@@ -307,8 +321,8 @@ impl TabModel {
                 self.learn(o, *table, first, last, *r)?;
             }
             Ev::LearnRaw { table, first, last, r } => self.learn(o, *table, *first, *last, *r)?,
-            Ev::Refresh { toggle_c, recreate_a, move_b, schema } => {
-                let new_topo = Self::next_topo(&o.topo, *toggle_c, *recreate_a, *move_b);
+            Ev::Refresh { toggle_c, toggle_d, recreate_a, move_b, schema } => {
+                let new_topo = Self::next_topo(&o.topo, *toggle_c, *toggle_d, *recreate_a, *move_b);
                 let removed: BTreeSet<NodeLabel> = o.topo.known().difference(&new_topo.known()).copied().collect();
                 let ks = keyspaces(&self.cfg, *schema);
                 catch(|| o.world.refresh(&new_topo.nodes(), &ks)).map_err(|p| complaint("panic:refresh", format!("metadata refresh {ev:?} panicked: {p}")))?;
@@ -324,8 +338,8 @@ impl TabModel {
     /// topology-only production path when the schema does not change.
     pub async fn apply_ev_production(&self, o: &mut Obj, ev: &Ev, current_schema: &mut Schema, alt: bool) -> Result<(), String> {
         match ev {
-            Ev::Refresh { toggle_c, recreate_a, move_b, schema } => {
-                let new_topo = Self::next_topo(&o.topo, *toggle_c, *recreate_a, *move_b);
+            Ev::Refresh { toggle_c, toggle_d, recreate_a, move_b, schema } => {
+                let new_topo = Self::next_topo(&o.topo, *toggle_c, *toggle_d, *recreate_a, *move_b);
                 let removed: BTreeSet<NodeLabel> = o.topo.known().difference(&new_topo.known()).copied().collect();
                 if alt && schema == current_schema {
                     o.world.refresh_topology_production(&new_topo.nodes()).await;
@@ -447,7 +461,7 @@ impl TabModel {
     /// Relabelling only: A's concrete address is replaced by "equals the current address of A".
     pub fn canon_bytes(&self, o: &Obj) -> Vec<u8> {
         let mut c: Vec<u8> = Vec::with_capacity(128);
-        c.push(o.topo.c_present as u8 | (o.topo.b_dc3 as u8) << 1 | (o.world.info_has_unknown_replicas() as u8) << 2);
+        c.push(o.topo.c_present as u8 | (o.topo.b_dc3 as u8) << 1 | (o.world.info_has_unknown_replicas() as u8) << 2 | (o.topo.d_present as u8) << 3);
         let dc_code = |d: &Option<String>| -> u8 {
             match d.as_deref() {
                 None => 0,
